@@ -213,7 +213,7 @@ func (te *tableEngine) startGame() error {
 		for gpIdx, p := range gs.Players {
 			if playerIdx := te.table.FindPlayerIndexFromGamePlayerIndex(gpIdx); playerIdx != UnsetValue {
 				player := te.table.State.PlayerStates[playerIdx]
-				pga := te.createPlayerGameAction(player.PlayerID, playerIdx, "pay", player.Bankroll, p)
+				pga := te.createPlayerGameAction(player.PlayerID, playerIdx, "pay", player.Bankroll, gs, p)
 				pga.Round = "ante"
 				te.emitGamePlayerActionEvent(*pga)
 			}
@@ -225,7 +225,7 @@ func (te *tableEngine) startGame() error {
 				if funk.Contains([]string{Position_SB, Position_BB}, pos) {
 					if playerIdx := te.table.FindPlayerIndexFromGamePlayerIndex(gpIdx); playerIdx != UnsetValue {
 						player := te.table.State.PlayerStates[playerIdx]
-						pga := te.createPlayerGameAction(player.PlayerID, playerIdx, "pay", player.Bankroll, p)
+						pga := te.createPlayerGameAction(player.PlayerID, playerIdx, "pay", player.Bankroll, gs, p)
 						te.emitGamePlayerActionEvent(*pga)
 					}
 				}
